@@ -13,7 +13,8 @@
    with the state after a block that is in the block store); [env_mono]: block times do not
    decrease with the height (enforced by block validation, property C06). *)
 From Coq Require Import List ZArith NArith Bool Lia.
-From TM Require Import Generated.Consts C11.Model C11.Proofs C11.Spec C11.SpecProofs.
+From TM Require Import Generated.Consts C11.Model C11.Proofs C11.Spec C11.SpecProofs
+  C11.CrashModel C11.CrashProofs.
 Import ListNotations.
 Open Scope Z_scope.
 
@@ -426,3 +427,45 @@ Example C11_unrepaired_F57_refuted :
   byz_validators l vs4 (hdr4 3) = [v_ 1; v_ 2] /\
   byz_ok l vs4 vs4 (hdr4 3) (byz_validators l vs4 (hdr4 3)) = true.
 Proof. vm_compute. auto. Qed.
+
+(* ------------------------------------------------------------------ 11. a crash between the
+   point where a block is durably stored and evpool.Update, then the restart (F95)
+
+   ApplyBlock updates the pool after the ABCI execution and the application's Commit; after a
+   crash before that point the handshake re-applies the block with sm.EmptyEvidencePool{} and
+   saves its state, and evidence.NewPool starts from that state and its own database
+   (CrashModel.v: [crash_restart]).  WITH the repair (NewPool marks the evidence of the block at
+   state.LastBlockHeight as committed): whatever the pool looked like when the process died
+   ([Inv en p]: any history), whatever the block [evs] carried, and after any further history
+   [ops] (restarts included), evidence of that block is not pending (so PendingEvidence does not
+   propose it), is not admitted again and a block carrying it is refused. *)
+Theorem C11_crash_before_update_never_twice : forall en p st evs e ops e',
+  env_mono en -> Inv en p -> op_ok en (OpUpdate st evs) -> Forall (op_ok en) ops ->
+  s_height (p_st p) < s_height st -> In e evs -> e_key e' = e_key e ->
+  let q := run en (crash_restart true en p st evs) ops in
+  ~ In e' (p_pending q) /\
+  snd (add_evidence en q e') <> AddedNew /\
+  forall l, In e' l -> snd (check_evidence true en q l) = false.
+Proof. exact crash_never_twice. Qed.
+Print Assumptions C11_crash_before_update_never_twice.
+
+Example C11_crash_before_update_nonvacuous :
+  let p := run en0 (new_pool (st_at 2)) [OpAdd (dv 2 101); OpAdd (dv 1 102)] in
+  let q := crash_restart true en0 p (st_at 3) [dv 2 101] in
+  map e_hash (p_pending p) = [102%N; 101%N] /\
+  map e_hash (p_pending q) = [102%N] /\ p_size q = 1 /\ p_committed q = [(2, 101%N)] /\
+  snd (add_evidence en0 q (dv 2 101)) = IgnoredCommitted /\
+  snd (check_evidence true en0 q [dv 2 101]) = false /\
+  fst (pending_evidence q (-1)) = [dv 1 102].
+Proof. vm_compute. repeat split; reflexivity. Qed.
+
+(* the unrepaired NewPool: the evidence block 3 committed is still pending after the restart,
+   PendingEvidence proposes it and CheckEvidence accepts a later block that carries it again *)
+Example C11_unrepaired_F95_refuted :
+  let p := run en0 (new_pool (st_at 2)) [OpAdd (dv 2 101)] in
+  let q := crash_restart false en0 p (st_at 3) [dv 2 101] in
+  map e_hash (p_pending q) = [101%N] /\ p_committed q = [] /\
+  map e_hash (fst (pending_evidence q (-1))) = [101%N] /\
+  snd (check_evidence true en0 q [dv 2 101]) = true /\
+  snd (add_evidence en0 q (dv 2 101)) = IgnoredPending.
+Proof. vm_compute. repeat split; reflexivity. Qed.
